@@ -268,6 +268,44 @@ theorem C13_enc_eq_implies_equals_counterexample : ¬ C13_enc_eq_implies_equals_
     (by rfl) (by rfl) (by decide) (by decide) rfl
   revert this; decide
 
+/-! ### the union hypothesis of `C13_enc_eq_implies_equals_partial` is needed too -/
+
+namespace C13W
+
+def nref (n : String) : Ty := .ref "p" n { nullable := true }
+def kindTy (v : String) : Ty := .scalar "string" (.str v) [] {}
+
+/-- `R { u: *U }`, `U` = struct generated from the disjunction `A | B` discriminated by `kind` -/
+def ssU : Schemas := [{ pkg := "p", objects := [
+  ("A", { name := "A", selfPkg := "p", selfName := "A",
+          ty := .struct [{ name := "kind", ty := kindTy "a", required := true }] [] none {} }),
+  ("B", { name := "B", selfPkg := "p", selfName := "B",
+          ty := .struct [{ name := "kind", ty := kindTy "b", required := true }] [] none {} }),
+  ("U", { name := "U", selfPkg := "p", selfName := "U",
+          ty := .struct [{ name := "A", ty := nref "A", required := false },
+                         { name := "B", ty := nref "B", required := false }] []
+                  (some ("disjunction_of_refs",
+                    { discriminator := "kind", mapping := [("a", "A"), ("b", "B")] })) {} }),
+  ("R", { name := "R", selfPkg := "p", selfName := "R",
+          ty := .struct [{ name := "u", ty := nref "U", required := true }] [] none {} })] }]
+
+def tR : Ty := .ref "p" "R" {}
+def uNil : GoVal := .struct [("u", false, .nil)]
+def uEmpty : GoVal := .struct [("u", false, .ptr (.union [("A", .nil), ("B", .nil)]))]
+
+end C13W
+
+/-- `{"u":null}` and `{"u":{"kind":"zzz"}}` (a discriminator no branch claims): a nil `*U` and a
+    non-nil `U` with no branch set both marshal to `{"u":null}`, and are not Equal -/
+theorem C13_enc_eq_implies_equals_counterexample_union : ¬ C13_enc_eq_implies_equals_full := by
+  intro h
+  have := h 8 8 ssU tR (.obj [("u", .null)]) (.obj [("u", .obj [("kind", .str "zzz")])]) uNil uEmpty
+    (by rfl) (by rfl) (by decide) (by decide) (by rfl)
+  revert this; decide
+
+example : schemasOk ssU = true := by decide
+example : unionsAligned 8 ssU tR uNil uEmpty = false := by decide
+
 /-! ## non-vacuity: the hypotheses of the partial theorems are satisfiable by interesting values -/
 
 /-- the witness schema set is in the fragment, so `C13_decode_wt` applies to it -/
